@@ -226,9 +226,9 @@ def level2_equal(impl, model):
 
 # ------------------------------------------------------------------ Lean side
 
-def run_driver(lines, timeout=1200):
+def run_driver(lines, timeout=1200, main="MainDriver.lean"):
     inp = "\n".join(lines) + "\n"
-    p = subprocess.run(["lake", "env", "lean", "--run", "TTModel/Driver.lean"], cwd=LEAN, input=inp,
+    p = subprocess.run(["lake", "env", "lean", "--run", main], cwd=LEAN, input=inp,
                        capture_output=True, text=True, timeout=timeout)
     if p.returncode != 0:
         raise RuntimeError("driver failed: " + p.stderr[-2000:] + p.stdout[-500:])
